@@ -514,6 +514,9 @@ func genH2Cases(r *hk.Rand, quick bool, add func(*Case)) {
 	}
 	for _, g := range seqs {
 		for i := 0; i < reps; i++ {
+			if i >= 3 && (strings.Contains(g.shape, "flood") || g.shape == "flow-control-violation") {
+				break // big streams: a few repetitions are enough, and they stay in memory
+			}
 			c := &Case{Kind: "h2", Method: hk.Pick(r, []string{"GET", "GET", "POST", "HEAD"}), Shape: "h2:" + g.shape}
 			if i == 0 {
 				c.Opts = Opts{DisableAutoDecode: true}
